@@ -982,9 +982,8 @@ Section Template.
     sep w f = w \/ sep w f = 64 :: 40 :: tl w ++ [41].
   Proof.
     unfold sep, separate_from. destruct (negb separates_identifiers); [left; reflexivity|].
-    destruct f as [|c r]; [left; reflexivity|].
     destruct (is_prefix [64; 40] w); [left; reflexivity|].
-    destruct (ExScanner.scan isln lower_rune (Some run_top_levels) true (ExScanner.new_input (w ++ c :: r))) as [[[ty tok] i]| |];
+    destruct (ExScanner.scan isln lower_rune (Some run_top_levels) true (ExScanner.new_input (w ++ f))) as [[[ty tok] i]| |];
       try (right; reflexivity).
     destruct ty; try (right; reflexivity).
     destruct (text_eqb tok (tl w)); [left|right]; reflexivity.
@@ -1011,10 +1010,8 @@ Section Template.
       + eexists. split; [reflexivity|]. split; [right; reflexivity | apply parse3_print3; assumption].
       + exfalso. revert E. unfold sep, separate_from. destruct (negb separates_identifiers).
         * intros E. apply (f_equal (@length N)) in E. cbn in E. rewrite !app_length in E. cbn in E. lia.
-        * destruct following as [|c r].
-          -- intros E. apply (f_equal (@length N)) in E. cbn in E. rewrite !app_length in E. cbn in E. lia.
-          -- cbn [is_prefix]. rewrite !N.eqb_refl. cbn [andb].
-             intros E. apply (f_equal (@length N)) in E. cbn in E. rewrite !app_length in E. cbn in E. lia.
+        * cbn [is_prefix]. rewrite !N.eqb_refl. cbn [andb].
+          intros E. apply (f_equal (@length N)) in E. cbn in E. rewrite !app_length in E. cbn in E. lia.
   Qed.
 End Template.
 
